@@ -32,7 +32,7 @@ Fixpoint edge_bits (L : Loop K) (point d : V3 K) (ray : Seg K) (vs : list (V3 K)
 Definition query_bits (L : Loop K) (point : V3 K) : N :=
   match loop_is_coplanar L point with
   | Ok true =>
-    let d := vscale (vsub point (vscale (vadd (vnth (verts L) O) (vnth (verts L) (S O))) nhalf)) (nofZ 1000) in
+    let d := loop_ray L point in
     edge_bits L point d (seg_new point (vadd point d)) (verts L) (vnth (verts L) O) 0%N
   | Ok false => 1%N
   | _ => 0%N
